@@ -157,12 +157,13 @@ func (ucr *UnsignedChunkReader) extractChunkSize() (int64, error) {
 	}
 	line := strings.TrimSpace(string(b))
 
-	chunkSize, err := strconv.ParseInt(line, 16, 64)
-	if err != nil || chunkSize < 0 {
+	// a bare hexadecimal number: no sign ("+a", "-0")
+	chunkSize, err := strconv.ParseUint(line, 16, 63)
+	if err != nil {
 		return 0, errMalformedEncoding
 	}
 
-	return chunkSize, nil
+	return int64(chunkSize), nil
 }
 
 // Reads and validates the trailer at the end
